@@ -14,6 +14,7 @@ import drive
 import gen
 import p_session as PS
 from codec import M, sansldap
+from guard import guarded
 
 LEAN_TARGETS = ["Verif.Props.C19", "Verif.Props.SmallMore"]
 LEVEL = "proof"
@@ -395,6 +396,62 @@ def shared_results(ctx, hist):
     return out
 
 
+def after_failures(ctx, hist):
+    """MANY sessions whose receive() fails somewhere inside a message (unknown filter choice at some nesting level, truncated interior, nesting too
+    deep to unpack, malformed control value), then an ordinary session on the same thread: what it decodes is what a fresh session in a fresh
+    interpreter decodes (whatever a failed decode leaves behind must not reach another session)"""
+    import ber as B
+
+    def tlv(tag, content):
+        return bytes([tag]) + B.enc_len(len(content)) + content
+
+    def search(i, filt):
+        return tlv(0x30, tlv(2, bytes([i])) + tlv(0x63, tlv(4, b"") + tlv(0x0A, b"\0") + tlv(0x0A, b"\0") + tlv(2, b"\0") + tlv(2, b"\0") + tlv(1, b"\0")
+                                                    + filt + tlv(0x30, b"")))
+
+    def nest(depth, leaf, kinds=(0xA2,)):
+        f = leaf
+        for d in range(depth):
+            k = kinds[d % len(kinds)]
+            f = tlv(k, f if k == 0xA2 else f + tlv(0x87, b"cn"))
+        return f
+
+    present = tlv(0x87, b"objectClass")
+    unknown = tlv(0x9F, b"\x2a\x01x")            # context tag 31*128+... : a filter choice no session knows
+    bad = [search(1, nest(d, unknown, kinds)) for d in (1, 2, 3, 3, 3, 5, 40, 200) for kinds in ((0xA2,), (0xA0, 0xA1, 0xA2))]
+    bad += [search(1, nest(3, tlv(0xA3, tlv(4, b"cn")), (0xA0, 0xA1, 0xA2))),      # equality without a value, inside and/or/not
+            search(1, nest(2500, present)), search(1, nest(2, tlv(0xA2, b"")))]
+    probes = [("ordinary", search(1, nest(2, present, (0xA0, 0xA1, 0xA2)))), ("nested-100", search(1, nest(100, present))),
+              ("nested-200", search(1, nest(200, present, (0xA0, 0xA2)))), ("nested-60-mixed", search(1, nest(60, present, (0xA0, 0xA1, 0xA2))))]
+    out = []
+    alone = {name: decode_alone("server", "searchReq", data) for name, data in probes}
+    rounds = ctx.scale(3, 12)
+    for rnd in range(rounds):
+        n_fail = 0
+        for rep in range(ctx.scale(120, 400)):
+            data = bad[(rep + rnd) % len(bad)]
+            s = sansldap.LDAPServer()
+            try:
+                guarded(lambda: s.receive(data), 20.0)
+            except BaseException:  # noqa: BLE001
+                n_fail += 1
+        hist["after-failures:failed-receives"] += n_fail
+        for name, data in probes:
+            s = sansldap.LDAPServer()
+            try:
+                got = [C.msg_to_json(m) for m in guarded(lambda: s.receive(data), 20.0)]
+            except BaseException as e:  # noqa: BLE001
+                got = "raised " + type(e).__name__
+            hist["after-failures:probes"] += 1
+            if alone[name] is not None and got != alone[name]:
+                out.append({"key": None, "what": "what a session decodes depends on decodes that FAILED in other sessions before it: the same bytes are "
+                            "decoded differently by a fresh session in a fresh interpreter", "probe": name, "bytes": data.hex()[:400],
+                            "failed_receives_before": n_fail * (rnd + 1), "got": got if isinstance(got, str) else "messages (differ)",
+                            "alone_in_fresh_interpreter": "messages" if alone[name] else alone[name]})
+                return out
+    return out
+
+
 def shared_inputs(ctx, hist):
     """two sessions are handed the SAME input object (a bytearray holding the common first bytes of their next messages): neither may keep it —
     what one session receives afterwards must not reach the other"""
@@ -459,6 +516,7 @@ def run(ctx):
     hist = collections.Counter()
     violations += shared_results(ctx, hist)
     violations += shared_inputs(ctx, hist)
+    violations += after_failures(ctx, hist)
     import p_recv
     violations += p_recv.failed_pack_histories(ctx.rng, ctx.scale(150, 3000), hist)
     distinct = set()
